@@ -122,6 +122,7 @@ func (dr *DatabaseRecovery) loadWithRetry(primaryPath, personalPath string) (*da
 	var lastErr error
 
 	for attempt := 1; attempt <= dr.retryConfig.MaxAttempts; attempt++ {
+		verifObserveAttempt(attempt)
 		db, err := database.LoadDatabaseWithPersonal(primaryPath, personalPath)
 		if err == nil {
 			return db, nil
